@@ -181,6 +181,21 @@ class DomainSession:
 
         n = op["n"]
         m = len(self.mx)
+        extra = op.get("extra")
+        if op.get("extra_first") and extra in ("trend", "noise", "smooth"):
+            # a grid-preserving reshaping operation as the very first thing after the domain history: the working
+            # series may still share memory with what the constructor was given
+            if extra == "trend":
+                self.w.trend(lambda t: 0.5 * t + 1.0, normalized=bool(op.get("seed", 0) % 2))
+                ref_intact("trend (first reshaping operation)")
+            elif extra == "noise":
+                np.random.seed(op.get("seed", 0))
+                self.w.noise(20.0)
+                ref_intact("noise (first reshaping operation)")
+            elif m >= 5:
+                self.w.smooth(op.get("s", 0.5))
+                ref_intact("smooth (first reshaping operation)")
+            extra = None
         if len(ref0[0]) != m or len(self.w.get()[0]) != m:
             self.fail(f"before the closing step the working / reference series have {len(self.w.get()[0])} / "
                       f"{len(ref0[0])} samples, the model has {m}")
@@ -201,7 +216,6 @@ class DomainSession:
         except Violation as v:
             self.fail("after the history, recreate+match does not reproduce the transformed averages: " + v.msg,
                       v.detail)
-        extra = op.get("extra")
         if extra == "smooth" and len(zx) >= 5:
             self.w.smooth(op.get("s", 0.5))
             ref_intact("smooth")
@@ -267,11 +281,12 @@ def make_machine(ctx):
                     strategy=st.sampled_from(gens.STRATEGY_NAMES), n=st.integers(2, 8),
                     rule_=st.sampled_from(["trapezoid", "rectangle"]),
                     extra=st.sampled_from([None, "smooth", "trend", "noise", "interpolate"]),
-                    seed=st.integers(0, 2 ** 20), data=st.data())
-        def start(self, s, strategy, n, rule_, extra, seed, data):
+                    seed=st.integers(0, 2 ** 20), extra_first=st.booleans(), data=st.data())
+        def start(self, s, strategy, n, rule_, extra, seed, extra_first, data):
             kw = data.draw(gens.rfa_params(strategy, n, exp_lo=0.05))
             # the closing recreate+match step is drawn up front and executed when the history ends
-            self.term = dict(op="terminal", strategy=strategy, n=n, rule=rule_, kw=kw, extra=extra, seed=seed)
+            self.term = dict(op="terminal", strategy=strategy, n=n, rule=rule_, kw=kw, extra=extra, seed=seed,
+                             extra_first=extra_first)
             self.sess = DomainSession(dict(x=s["x"], y=s["y"], xint=s["xint"]))
 
         def _try(self, op):
@@ -409,7 +424,7 @@ def alphabet_body(ctx, case):
             skipped += 1
     s, n, r = TERMINALS[case["terminal"]]
     sess.terminal(dict(op="terminal", strategy=s, n=n, rule=r, kw={}, extra=[None, "trend", "noise"][len(case["seq"]) % 3],
-                       seed=7))
+                       seed=7, extra_first=sum(case["seq"]) % 2 == 0))
     if skipped:
         ctx.count("letters-inadmissible-in-state", skipped)
     cls, nt = classify(sess.trace())
@@ -429,7 +444,8 @@ def commute_case(draw, ctx):
     if which.startswith("shift"):
         v = float(draw(st.integers(-30, 30))) if adaptive else draw(fl(-1e2, 1e2))
     else:
-        v = draw(st.sampled_from([2.0, 0.5, 4.0, 0.25])) if adaptive else draw(fl(0.05, 20.0))
+        v = (draw(st.sampled_from([2.0, 0.5, 4.0, 0.25, 2.0 ** -40, 2.0 ** -30, 2.0 ** 30])) if adaptive
+             else draw(st.one_of(fl(0.05, 20.0), st.sampled_from([1e-9, 1e9]))))
         if which == "scale_y" and draw(st.booleans()):
             v = -v
     case["map"] = dict(op=which, v=v)
